@@ -44,6 +44,7 @@ const (
 	stNoConverge   = 11
 	stFuncError    = 12
 	stInt64Range   = 13
+	stExpContract  = 14
 	stOther        = 99
 )
 
@@ -76,6 +77,8 @@ func classify(msg string) int {
 		return stFuncError
 	case strings.Contains(msg, "Int64() out of bound"):
 		return stInt64Range
+	case strings.Contains(msg, "exponent must be in the range [0, 1]"):
+		return stExpContract
 	}
 	return stOther
 }
